@@ -95,7 +95,9 @@ func c19Systematic(tier string) []*Case {
 		out = append(out, c)
 	}
 	// degenerate but valid files
-	for name, content := range map[string]string{"empty": "", "blank": "\n\n  \n", "comment": "// nothing\n/* x */\n", "crlf": strings.ReplaceAll(okProg, "\n", "\r\n"), "nofinalnl": strings.TrimSuffix(okProg, "\n")} {
+	degenerate := map[string]string{"empty": "", "blank": "\n\n  \n", "comment": "// nothing\n/* x */\n", "crlf": strings.ReplaceAll(okProg, "\n", "\r\n"), "nofinalnl": strings.TrimSuffix(okProg, "\n")}
+	for _, name := range sortedStrKeys(degenerate) {
+		content := degenerate[name]
 		files := map[string]sim.File{"a.bn": {Data: []byte(content)}}
 		c := mk("file:"+name, []string{"a.bn"}, files)
 		c.Program = content
